@@ -118,8 +118,8 @@ Section ROut.
   Lemma step_ok1_ok w hot o : step_ok1 w hot o -> step_ok C w hot o.
   Proof.
     destruct hot as [h|]; cbn [step_ok1 step_ok].
-    - intros ([Ho _] & H2 & H3). auto.
-    - intros [o' [Ho _]|p q ep Np Nq Hrec El De Sp Hpr Sq Elq]; [now apply cx_op | eapply cx_out; eassumption].
+    - intros (Ho & H2 & H3). split; [now apply c01_op_covered | auto].
+    - intros [o' Ho|p q ep Np Nq Hrec El De Sp Hpr Sq Elq]; [apply cx_op; now apply c01_op_covered | eapply cx_out; eassumption].
   Qed.
 
   Fixpoint ops_x1 (w : world) (hot : option bytes) (ops : list op) : Prop :=
@@ -146,7 +146,7 @@ Section ROut.
     destruct hot as [h|]; cbn [GS step_ok1] in *.
     - destruct G as (c & p & PO). destruct Hs as (Ho & Hwp & Hnh).
       assert (Qne := record_produced C w k r o Hm (rs_wf _ _ _ _ (po_clean _ _ _ _ _ _ _ PO)) (po_cover _ _ _ _ _ _ _ PO) (po_mask _ _ _ _ _ _ _ PO) Hwp).
-      destruct (pout_step C Hfaults Hmo w k r h c p o w' M PO (proj1 Ho) Hnh Ea Qne)
+      destruct (pout_step C Hfaults Hmo w k r h c p o w' M PO (c01_op_covered _ _ _ Ho) Hnh Ea Qne)
         as (r2 & k2 & evs & Hrd2 & _ & _ & kc & rc & k3 & Sc & Hrdc).
       cbv zeta in Hrd2. rewrite Hrd in Hrd2. injection Hrd2 as <- <- <-.
       destruct (replay_step C full w kc rc o w' t Hfaults Hm Sc Ho Ea T) as (r4 & k4 & raws4 & Hrd4 & _ & _ & T4).
